@@ -4,7 +4,7 @@ import TracklibVerif.Model.GraphSession
 `__resetFlags` makes every search start from the clean labelling whatever the earlier calls left, so every call
 answers with the pure functions of `Model/Graph.lean` applied to the graph as it is at that moment. -/
 namespace TV.Graph
-variable {W : Type} [AddCommMonoid W] [LinearOrder W] [IsOrderedAddMonoid W]
+variable {W : Type} [LinearOrder W] [Add W] [Zero W] [WalkAdd W]
 
 /-! ### `__resetFlags` -/
 
